@@ -26,9 +26,51 @@ TIE_UNITS = {
     },
 }
 
+
+def _f(pkg, *names):
+    return [pkg + "." + n for n in names]
+
+TIE_UNITS.update({
+    "Events": {"funcs": _f("authboss", "Events.Before", "Events.After", "Events.FireBefore", "Events.FireAfter", "Events.call", "NewEvents"), "tables": []},
+    "Context": {"funcs": _f("authboss", "Authboss.CurrentUserID", "Authboss.CurrentUser", "Authboss.currentUser", "Authboss.LoadCurrentUserID", "Authboss.LoadCurrentUser", "Authboss.LoadCurrentUserP", "Authboss.CurrentUserP", "IsFullyAuthed", "IsTwoFactored", "DelKnownSession", "DelKnownCookie"), "tables": []},
+    "Middleware": {"funcs": _f("authboss", "MountedMiddleware2", "Middleware2", "MountedMiddleware", "Middleware", "hasBit"), "tables": []},
+    "Core": {"funcs": _f("authboss", "Authboss.UpdatePassword", "Authboss.VerifyPassword", "bcryptHasher.CompareHashAndPassword", "bcryptHasher.GenerateHash", "Sha512TokenGenerator.GenerateToken", "Sha512TokenGenerator.ParseToken", "Sha512TokenGenerator.TokenSize", "MakeOAuth2PID", "ParseOAuth2PID", "Authboss.Email"), "tables": ["consts_authboss", "stateCalls_authboss"]},
+    "Lock": {"funcs": _f("lock", "Lock.Init", "Lock.BeforeAuth", "Lock.AfterAuthSuccess", "Lock.AfterAuthFail", "Lock.updateLockedState", "Lock.Lock", "Lock.Unlock", "Middleware", "IsLocked"), "tables": ["eventRegs_lock", "stateCalls_lock", "logCalls_lock"]},
+    "Auth": {"funcs": _f("auth", "Auth.Init", "Auth.LoginPost"), "tables": ["eventRegs_auth", "stateCalls_auth", "logCalls_auth", "routes_auth"]},
+    "Otp": {"funcs": _f("otp", "OTP.Init", "OTP.LoginPost", "OTP.AddPost", "OTP.ClearPost", "splitOTPs", "joinOTPs", "generateOTP"), "tables": ["consts_otp", "eventRegs_otp", "stateCalls_otp", "logCalls_otp", "routes_otp"]},
+    "Confirm": {"funcs": _f("confirm", "Confirm.Init", "Confirm.PreventAuth", "Confirm.StartConfirmationWeb", "Confirm.StartConfirmation", "Confirm.SendConfirmEmail", "Confirm.Get", "Confirm.invalidToken", "Middleware"), "tables": ["eventRegs_confirm", "stateCalls_confirm", "logCalls_confirm", "routes_confirm"]},
+    "Recover": {"funcs": _f("recover", "Recover.Init", "Recover.StartPost", "Recover.SendRecoverEmail", "Recover.EndPost", "Recover.invalidToken"), "tables": ["eventRegs_recover", "stateCalls_recover", "logCalls_recover", "routes_recover"]},
+    "Register": {"funcs": _f("register", "Register.Init", "Register.Post", "hasString"), "tables": ["eventRegs_register", "stateCalls_register", "logCalls_register", "routes_register"]},
+    "Logout": {"funcs": _f("logout", "Logout.Init", "Logout.Logout"), "tables": ["eventRegs_logout", "stateCalls_logout", "logCalls_logout", "routes_logout"]},
+    "Remember": {"funcs": _f("remember", "Remember.Init", "Remember.RememberAfterAuth", "Middleware", "Authenticate", "Remember.AfterPasswordReset", "GenerateToken"), "tables": ["consts_remember", "eventRegs_remember", "stateCalls_remember", "logCalls_remember"]},
+    "Expire": {"funcs": _f("expire", "Setup", "timeToExpiry", "refreshExpiry", "Middleware", "expireMiddleware.ServeHTTP", "stateHider.Get"), "tables": ["eventRegs_expire", "stateCalls_expire", "pkgVars_expire"]},
+    "OAuth2": {"funcs": _f("oauth2", "OAuth2.Init", "OAuth2.Start", "OAuth2.End", "RMTrue.GetShouldRemember"), "tables": ["consts_oauth2", "eventRegs_oauth2", "stateCalls_oauth2", "logCalls_oauth2", "routes_oauth2", "pkgVars_oauth2"]},
+    "Totp": {"funcs": _f("otp_twofactor_totp2fa", "TOTP.Setup", "TOTP.HijackAuth", "TOTP.GetSetup", "TOTP.PostSetup", "TOTP.PostConfirm", "TOTP.PostRemove", "TOTP.PostValidate", "TOTP.validate"), "tables": ["consts_otp_twofactor_totp2fa", "eventRegs_otp_twofactor_totp2fa", "stateCalls_otp_twofactor_totp2fa", "logCalls_otp_twofactor_totp2fa", "routes_otp_twofactor_totp2fa"]},
+    "Sms": {"funcs": _f("otp_twofactor_sms2fa", "SMS.Setup", "SMS.HijackAuth", "SMS.SendCodeToUser", "SMS.GetSetup", "SMS.PostSetup", "SMSValidator.Post", "SMSValidator.sendCode", "SMSValidator.validateCode", "generateRandomCode"), "tables": ["consts_otp_twofactor_sms2fa", "eventRegs_otp_twofactor_sms2fa", "stateCalls_otp_twofactor_sms2fa", "logCalls_otp_twofactor_sms2fa", "routes_otp_twofactor_sms2fa"]},
+    "TwoFactor": {"funcs": _f("otp_twofactor", "Recovery.Setup", "Recovery.PostRegen", "GenerateRecoveryCodes", "BCryptRecoveryCodes", "UseRecoveryCode", "EncodeRecoveryCodes", "DecodeRecoveryCodes", "SetupEmailVerify", "EmailVerify.PostStart", "EmailVerify.SendVerifyEmail", "EmailVerify.End", "EmailVerify.Wrap", "GenerateToken"), "tables": ["consts_otp_twofactor", "stateCalls_otp_twofactor", "logCalls_otp_twofactor", "routes_otp_twofactor"]},
+    "Responder": {"funcs": _f("defaults", "Responder.Respond", "Redirector.Redirect", "Redirector.redirectAPI", "Redirector.redirectNonAPI", "isAPIRequest", "errorHandler.ServeHTTP", "ErrorHandler.Wrap", "Router.ServeHTTP", "JSONRenderer.Render"), "tables": []},
+    "Values": {"funcs": _f("defaults", "HTTPBodyReader.Read", "NewHTTPBodyReader", "HTTPFormValidator.Validate", "URLValuesToMap", "UserValues.GetShouldRemember", "Rules.Errors", "Rules.IsValid", "tallyCharacters"), "tables": ["consts_defaults", "pkgVars_defaults"]},
+    "Shared": {"funcs": _f("defaults", "SMTPMailer.Send", "SMTPMailer.boundary", "NewSMTPMailer", "LogMailer.Send", "Logger.Info", "Logger.Error", "SetCore") + _f("authboss", "Authboss.Init", "Authboss.loadModule", "RegisterModule", "New"), "tables": ["pkgVars_authboss", "pkgVars_auth", "pkgVars_confirm", "pkgVars_lock", "pkgVars_logout", "pkgVars_otp", "pkgVars_otp_twofactor", "pkgVars_otp_twofactor_sms2fa", "pkgVars_otp_twofactor_totp2fa", "pkgVars_recover", "pkgVars_register", "pkgVars_remember"]},
+})
+
 COMMON_TB = []
 
+MACH_QUICK = {"name": "mach", "n": 120, "seeds": 4}
+MACH_THOROUGH = {"name": "mach", "n": 400, "seeds": 12}
+SYMBOLIC = "symbolic cryptography: SHA-512 and bcrypt are ideal (verify(hash p) q <-> p = q); crypto/rand output is a parameter of the model (fed back from the real run); TOTP validity is an oracle parameter"
+
 PROPS = {
+    "C04": {
+        "ties": ["Lock", "Events"],
+        "streams": {
+            "quick": [{"name": "c04", "n": 3000}, MACH_QUICK],
+            "thorough": [{"name": "c04", "n": 30000, "seeds": 4}, MACH_THOROUGH],
+        },
+        "level": "proof",
+        "assumptions": ["time is an integer number of nanoseconds; Go's zero time behaves as minus infinity (window/duration < 2^62 ns)",
+                        "which handler fires AuthFail/Auth events is part of the machine model, tied by the mach stream"],
+        "trusted_base": ["Go time package; fake clock (-tags faketime) of the harness"],
+    },
     "C11": {
         "ties": ["ClientState"],
         "streams": {
